@@ -126,7 +126,13 @@ func mkSchnorrV(curve string, s, l *big.Int, sess []byte) (*proofInst, error) {
 		rk = big.NewInt(3)
 	}
 	R := crypto.ScalarBaseMult(ec, rk)
-	V, err := R.ScalarMult(s).Add(crypto.ScalarBaseMult(ec, l))
+	// V = s*R + l*G computed with the reference arithmetic: s or l may be 0 (a legitimate witness), which the library's
+	// point type cannot multiply by
+	rv := refAdd(curve, refMul(curve, s, refPt(R)), refBaseMul(curve, l))
+	if refIsId(curve, rv) && !isEd(curve) {
+		return nil, fmt.Errorf("V is the identity")
+	}
+	V, err := crypto.NewECPoint(ec, rv.X, rv.Y)
 	if err != nil {
 		return nil, err
 	}
